@@ -1061,10 +1061,14 @@ def rule_container_prov(facts):
     for b in facts.bodies:
         if b["kind"] == "Closure":
             continue
-        tr = b.get("impl_trait")
-        if tr not in ("container::ContainerExactly", "private::MaybeUninitExt"):
+        tr = b.get("impl_trait") or ""
+        if tr.split("::")[-1] not in ("ContainerExactly", "MaybeUninitExt"):
             continue
         key = b["qname"]
+        if key not in CT.CALLS:
+            moved = [k for k in CT.CALLS if mirq.short_key(k) == mirq.short_key(key)]
+            if len(moved) == 1:
+                key = moved[0]          # the trait was moved to another module: same reviewed primitive
         n += 1
         got = effects_nf(facts, b)
         comp[key] = got
